@@ -146,7 +146,8 @@ def build_cfg(btype, kind, cxx="g++", jobs=4, guard=True):
     """Build the library with the repository's own CMake in one configuration and link the
     (uninstrumented) driver against it.  Returns the driver path.  guard=False: the library is compiled
     WITHOUT the hook guard, i.e. exactly as shipped (no step budgets there: not for damaged inputs)."""
-    name = "cfg-%s-%s-%s%s" % (btype, kind, cxx.replace("+", "p"), "" if guard else "-noguard")
+    # (the name must not extend another flavour's name: stale directories are removed by prefix)
+    name = "%s-%s-%s-%s" % ("cfg" if guard else "cfgnoguard", btype, kind, cxx.replace("+", "p"))
     key = _sha_files(repo_files() + driver_sources() + driver_headers(), extra=name)
     out = os.path.join(BUILD_ROOT, "%s-%s" % (name, key))
     exe = os.path.join(out, "c3d_driver")
